@@ -105,8 +105,7 @@ func stubClientDo(c *http.Client, req *http.Request) (*http.Response, error) {
 		select {}
 	}
 	if ctx.Err() != nil {
-		vEmit(vEvent{kind: "probe_begin", target: host, req: idx})
-		vEmit(vEvent{kind: "probe_end", target: host, req: idx, ok: false, note: "ctx"})
+		// net/http notices the dead context before anything is sent: no probe leaves the proxy
 		return nil, &url.Error{Op: "Get", URL: host, Err: ctx.Err()}
 	}
 	o := vProbeOutcome{kind: vProbeRefused}
